@@ -22,6 +22,10 @@ use std::time::Duration;
 /// Datagrams a simulated socket accepts per simulated millisecond (~600 Mbit/s at 1200 bytes).
 pub const NIC_BURST: u32 = 64;
 
+fn nic_budget(saturated_streak: u32) -> u32 {
+    (NIC_BURST >> saturated_streak.min(6)).max(1)
+}
+
 #[derive(Clone, Debug)]
 pub struct LinkCfg {
     pub drop: f64,
@@ -120,7 +124,8 @@ pub struct FabricInner {
     recv_errors: BTreeMap<SocketAddr, VecDeque<io::ErrorKind>>,
     send_blocked_until: BTreeMap<SocketAddr, u64>,
     send_errors: BTreeMap<SocketAddr, u32>,
-    nic: BTreeMap<SocketAddr, (u64, u32)>,
+    nic: BTreeMap<(SocketAddr, SocketAddr), (u64, u32, u32)>,
+    nic_hint: BTreeMap<SocketAddr, u64>,
     pub delivered: u64,
     pub sent: u64,
     pub bytes: u64,
@@ -163,6 +168,7 @@ impl Fabric {
                 send_blocked_until: BTreeMap::new(),
                 send_errors: BTreeMap::new(),
                 nic: BTreeMap::new(),
+                nic_hint: BTreeMap::new(),
                 delivered: 0,
                 sent: 0,
                 bytes: 0,
@@ -573,14 +579,24 @@ impl std::fmt::Debug for SimPoller {
 impl UdpPoller for SimPoller {
     fn poll_writable(mut self: Pin<&mut Self>, cx: &mut Context) -> Poll<io::Result<()>> {
         let now = self.sock.fabric.now_ns();
-        let until = self
-            .sock
-            .fabric
-            .lock()
-            .send_blocked_until
-            .get(&self.sock.addr)
-            .copied()
-            .unwrap_or(0);
+        let until = {
+            let mut f = self.sock.fabric.lock();
+            let whole = f.send_blocked_until.get(&self.sock.addr).copied().unwrap_or(0);
+            // the most recent per-destination refusal on this socket (set by the try_send that
+            // made quinn ask for writability)
+            let hint = if self.sleep.is_none() { f.nic_hint.remove(&self.sock.addr).unwrap_or(0) } else { 0 };
+            whole.max(hint)
+        };
+        if self.sleep.is_some() && until <= now {
+            // keep waiting on the sleep created for a per-destination refusal
+            return match self.sleep.as_mut().unwrap().as_mut().poll(cx) {
+                Poll::Ready(()) => {
+                    self.sleep = None;
+                    Poll::Ready(Ok(()))
+                }
+                Poll::Pending => Poll::Pending,
+            };
+        }
         if until <= now {
             self.sleep = None;
             return Poll::Ready(Ok(()));
@@ -619,13 +635,17 @@ impl AsyncUdpSocket for SimSocket {
             // advances even if an endpoint tries to send in a tight loop (with a paused clock a
             // loop that never awaits a timer would otherwise freeze time forever).
             let ms = now / 1_000_000;
-            let e = f.nic.entry(self.addr).or_insert((ms, 0));
+            let e = f.nic.entry((self.addr, t.destination)).or_insert((ms, 0, 0));
             if e.0 != ms {
-                *e = (ms, 0);
+                // a socket that keeps its queue full is drained more and more slowly (any rate is
+                // a legal network); one quiet millisecond resets it
+                let saturated = e.1 > nic_budget(e.2) && e.0 + 1 == ms;
+                *e = (ms, 0, if saturated { (e.2 + 1).min(8) } else { 0 });
             }
             e.1 += 1;
-            if e.1 > NIC_BURST {
-                f.send_blocked_until.insert(self.addr, (ms + 1) * 1_000_000);
+            if e.1 > nic_budget(e.2) {
+                // per-destination queue (fair queueing): only the sender to this destination waits
+                f.nic_hint.insert(self.addr, (ms + 1) * 1_000_000);
                 *f.counts.entry("nic_rate_limited").or_default() += 1;
                 return Err(io::Error::new(io::ErrorKind::WouldBlock, "sim: NIC queue full"));
             }
